@@ -2,11 +2,14 @@ package main
 
 import (
 	"fmt"
+	"io/fs"
 	"math"
 	"os"
 	"os/exec"
+	"regexp"
 	"runtime/debug"
 	"strings"
+	"testing/fstest"
 	"unicode/utf8"
 
 	"code.gopub.tech/tpl/exp"
@@ -270,6 +273,39 @@ func propC08(c *ctx) error {
 					t, _ := m.tm.GetTemplate("t")
 					var sb strings.Builder
 					t.Execute(&sb, data)
+				}
+			})
+		}
+	}
+	// loading a template SET from a file system that misbehaves: a matching file that cannot be opened, cannot be read, a
+	// directory that cannot be listed — Parse / ParseWithSuffix / ParseWithRegexp return an error value
+	for _, fault := range []string{"open", "read", "readdir", "none"} {
+		for _, entry := range []string{"suffix", "regexp", "func"} {
+			base := fstest.MapFS{"a.html": {Data: []byte("<p>a</p>")}, "d/b.html": {Data: []byte(`<p :define="f">b</p>`)}, "d/c.txt": {Data: []byte("<<<")}, "d": {Mode: fs.ModeDir}}
+			ifs := &instFS{base: base, openErr: map[string]bool{}, readErr: map[string]bool{}, dirErr: map[string]bool{}}
+			switch fault {
+			case "open":
+				ifs.openErr["d/b.html"] = true
+			case "read":
+				ifs.readErr["d/b.html"] = true
+			case "readdir":
+				ifs.dirErr["d"] = true
+			}
+			in := J{"fault": fault, "entry_point": entry}
+			res.eval("fsfault|"+jstr(in), true, in)
+			guard("Parse (file system fault: "+fault+")", in, func() {
+				m := html.NewTplManager()
+				var err error
+				switch entry {
+				case "suffix":
+					err = m.ParseWithSuffix(ifs, ".html")
+				case "regexp":
+					err = m.ParseWithRegexp(ifs, regexp.MustCompile(`\.html$`))
+				default:
+					err = m.Parse(ifs, func(p string) bool { return strings.HasSuffix(p, ".html") })
+				}
+				if (err != nil) != (fault != "none") {
+					res.violate(in, J{"error": fault != "none"}, fmt.Sprint(err), "a file-system fault while loading is not returned as an error value (or a fault-free load fails)")
 				}
 			})
 		}
